@@ -12,6 +12,7 @@ import (
 	"strconv"
 	"strings"
 	"sync"
+	"sync/atomic"
 	"time"
 )
 
@@ -72,15 +73,28 @@ func execCase(scn string, in string) string {
 	}
 	// a case that never returns (e.g. the code under test deadlocked and even the
 	// executor's clean-up blocks) becomes a failing case instead of a hung check
+	// (after the first such case the budget per case shrinks, and after five the
+	// remaining cases of the run are not started: each is reported as hung)
+	trips := atomic.LoadInt32(&watchdogTrips)
+	if trips >= 5 {
+		return "hang:case-watchdog"
+	}
+	budget := caseTimeout()
+	if trips > 0 && budget > 30*time.Second {
+		budget = 30 * time.Second
+	}
 	done := make(chan string, 1)
 	go func() { done <- f(toks) }()
 	select {
 	case r := <-done:
 		return r
-	case <-time.After(caseTimeout()):
+	case <-time.After(budget):
+		atomic.AddInt32(&watchdogTrips, 1)
 		return "hang:case-watchdog"
 	}
 }
+
+var watchdogTrips int32
 
 func caseTimeout() time.Duration {
 	if v := os.Getenv("VERIF_CASE_TIMEOUT_S"); v != "" {
